@@ -167,11 +167,16 @@ def check_result_step_4(present: List[bool], dispatched: List[bool], wid: int, i
 
 
 def _result_step(N, present, dispatched, wid, is_exc, val):
+    from .fakes import FakeFlags, FakeLock, FakeWakeup, Log
     pending, futs = {}, {}
     running = []
+    log = Log()
+    sl, mg = FakeLock(log, "shutdown_lock"), FakeLock(log, "mgmt")
     for i in range(N):
         if present[i]:
             f = Future()
+            # user done-callbacks may call back into the executor: no internal lock may be held when they run
+            f.add_done_callback(lambda fut: log.add("cb", sl.held or mg.held))
             futs[i] = f
             pending[i] = _WorkItem(f, _fn, (i,), {})
             if dispatched[i]:
@@ -180,8 +185,11 @@ def _result_step(N, present, dispatched, wid, is_exc, val):
     before_running = list(running)
     exc = ValueError("boom") if is_exc else None
     item = _ResultItem(wid, exception=exc, result=None if is_exc else ("tag", val))
-    fake = NS(pending_work_items=pending, running_work_items=running)
+    fake = NS(pending_work_items=pending, running_work_items=running, shutdown_lock=sl, processes_management_lock=mg,
+              thread_wakeup=FakeWakeup(log, sl), executor_flags=FakeFlags(sl), processes={})
     _ExecutorManagerThread.process_result_item(fake, item)
+    if log.count("cb", True) or sl.held or mg.held:
+        return False
     known = wid < N and present[wid]
     for i, f in futs.items():
         if i == wid:
